@@ -33,7 +33,7 @@ def main():
         return setup.run()
     if a.what == "extras":
         from vf import extras
-        return extras.run(a.tier, seed)
+        return extras.run(a.tier, seed, os.environ.get("VERIF_EXTRA") or None)
     if a.what == "selftest":
         from vf import selftest
         return selftest.run(a.tier, seed)
